@@ -49,6 +49,8 @@ def canon(v):
         return repr(v[1])
     if v[0] == "bool":
         return str(v[1]).lower()
+    if v[0] == "any":
+        return "<any>"
     if v[0] == "some":
         return "Some(" + canon(v[1]) + ")"
     if v[0] == "none":
@@ -84,8 +86,15 @@ def mul(a, b):
 
 
 def equal(a, b):
+    if (b is not None and not is_form(b) and b[0] == "any") or (a is not None and not is_form(a) and a[0] == "any"):
+        return True
     if a is None or b is None:
         return False
+    # an opaque object and the variable of the same name are the same thing
+    if not is_form(a) and a[0] == "obj":
+        a = {a[1]: Fraction(1)}
+    if not is_form(b) and b[0] == "obj":
+        b = {b[1]: Fraction(1)}
     if is_form(a) and is_form(b):
         return L.equal(a, b)
     if is_form(a) or is_form(b):
@@ -272,6 +281,17 @@ class Evaluator:
             return self._binary(n["op"], a, b)
         if k == "Tup":
             return ("tup", [self.eval(x, env, st) for x in n["items"]])
+        if k == "Index":
+            base = self.eval(n.get("x") or n.get("base"), env, st)
+            idx = n.get("i") or n.get("idx") or n.get("index")
+            iv = self.eval(idx, env, st) if isinstance(idx, dict) else None
+            ci = L._const(iv) if is_form(iv) else None
+            if base is not None and not is_form(base) and ci is not None and ci.denominator == 1:
+                if base[0] == "tup" and int(ci) < len(base[1]):
+                    return base[1][int(ci)]
+                if base[0] == "obj":
+                    return ("obj", f"{base[1]}.{int(ci)}")
+            return None
         if k == "Array":
             return ("tup", [self.eval(x, env, st) for x in n.get("items", n.get("elems", []))])
         if k == "Struct":
@@ -444,6 +464,30 @@ class Evaluator:
             if chosen is not None:
                 return self.eval(chosen["body"], env, st)
         sc = self.eval(n["scrut"], env, st)
+        if self.name_case is not None and n["scrut"].get("k") == "Tup":
+            # (param, self.name.as_str()) style scrutinee: components that are known strings select literally
+            comps = []
+            for it in n["scrut"]["items"]:
+                if _is_name_scrut(it):
+                    comps.append(("str", self.name_case))
+                else:
+                    comps.append(self.eval(it, env, st))
+            if all(c is not None and not is_form(c) and c[0] == "str" for c in comps):
+                for arm in n["arms"]:
+                    for alt in _alts(arm["pat"]):
+                        if arm.get("guard"):
+                            continue
+                        if alt.get("p") == "wild":
+                            return self.eval(arm["body"], env, st)
+                        if alt.get("p") == "tuple" and len(alt["pats"]) == len(comps):
+                            ok = True
+                            for q, c in zip(alt["pats"], comps):
+                                lits = hirq.pat_strs(q)
+                                if not (c[1] in lits or hirq.WILD in lits):
+                                    ok = False
+                            if ok:
+                                return self.eval(arm["body"], env, st)
+                return None
         if sc is not None and not is_form(sc) and sc[0] == "variant":
             # a known variant selects its arm (case specialisation): first arm whose pattern admits it and whose
             # guard does not evaluate to false
@@ -488,6 +532,8 @@ class Evaluator:
                             e2[q["name"]] = ("obj", f"{pre}{i}")
                 elif alt.get("p") == "wild":
                     name = "_"
+                elif alt.get("p") in ("lit", "range"):
+                    name = _pat_name(alt)
                 elif alt.get("p") == "bind":
                     name = "_"
                     e2[alt["name"]] = sc
@@ -516,6 +562,9 @@ class Evaluator:
             recv = ("obj", self.type_alias[rty])
         if name in self.watch:
             self.calls.append(dict(name=name, recv=recv, args=args, line=n.get("line")))
+        if name in ("get", "get_attr", "pop", "pop_attr") and len(args) == 1 and args[0] is not None and not is_form(args[0]) and args[0][0] == "str" and ("AttrMap" in rty or "SvgElement" in rty):
+            # reading an attribute: the value is the symbol @name (the attribute is assumed present)
+            return ("some", ("obj", "@" + args[0][1]))
         if name in TRANSPARENT:
             return recv
         if name in ("to_string", "to_owned", "as_str") and recv is not None and not is_form(recv) and recv[0] == "str":
@@ -553,7 +602,10 @@ class Evaluator:
         if last in self.watch:
             self.calls.append(dict(name=last, recv=None, args=args, line=n.get("line")))
         if last in self.transparent and len(args) == 1:
-            return args[0]
+            a0 = args[0]
+            if a0 is not None and not is_form(a0) and a0[0] == "obj" and _scalar_ty(_ok_ty(n.get("ty"))):
+                return {a0[1]: Fraction(1)}
+            return a0
         if "Ctor" in str(res.get("dk", "")):
             if last == "Some" and len(args) == 1:
                 return ("some", args[0])
@@ -576,6 +628,25 @@ class Evaluator:
         if all(a is not None for a in args) and last:
             return atom(last, args)
         return None
+
+
+def _ok_ty(ty):
+    """T of Result<T, E> / Option<T>, else ty"""
+    ty = ty or ""
+    for pre in ("std::result::Result<", "std::option::Option<"):
+        if ty.startswith(pre):
+            inner = ty[len(pre):]
+            depth = 0
+            for i, ch in enumerate(inner):
+                if ch in "<(":
+                    depth += 1
+                elif ch in ">)":
+                    if depth == 0:
+                        return inner[:i]
+                    depth -= 1
+                elif ch == "," and depth == 0:
+                    return inner[:i]
+    return ty
 
 
 def _is_name_scrut(n):
@@ -688,7 +759,7 @@ class RefParser:
             self.i = j
             f = Fraction(tok)
             return {ONE: f} if f != 0 else {}
-        while j < len(self.s) and (self.s[j].isalnum() or self.s[j] in "_.$"):
+        while j < len(self.s) and (self.s[j].isalnum() or self.s[j] in "_.$@"):
             j += 1
         name = self.s[self.i:j]
         if not name:
@@ -723,6 +794,8 @@ def ref(x):
     if isinstance(x, str):
         if x == "None":
             return ("none",)
+        if x == "?":
+            return ("any",)
         return RefParser(x).parse()
     if isinstance(x, list):
         return ("tup", [ref(y) for y in x])
